@@ -839,6 +839,14 @@ func runStats(c *core.Ctx) {
 		}
 		pr, p := r.pr, r.p
 		ap := drawAsm(c)
+		if pre := ref.PEPathStats(pr.A, pr.QA, pr.B, pr.QB, r.o.Path); !pre.Ambiguous && pre.AliLength > 0 && pre.MatchLo == pre.MatchHi && c.Rng.Intn(3) == 0 {
+			// a min-identity placed on, or a hair beside, the identity of this very overlap: the decision
+			// is made on the exact ratio, not on the three decimals reported as score_norm
+			id := identity(pre.MatchLo, pre.AliLength)
+			m := []float64{id, math.Nextafter(id, 2), math.Nextafter(id, -1), math.Ceil(id*1000) / 1000, math.Floor(id*1000) / 1000, id + 0.0004, id - 0.0004}[c.Rng.Intn(7)]
+			ap.MinIdentity = math.Min(1, math.Max(0, m))
+			c.Count("thresholds_on_the_identity", 1)
+		}
 		evals++
 		sa, sb := mkseq("a", pr.A, pr.QA), mkseq("b", pr.B, pr.QB)
 		cons, pan := assemble(sa, sb, p, ap, s)
@@ -1201,7 +1209,7 @@ func init() {
 			"random / homopolymer-rich / tandem-repeat / two-letter templates; substitutions and indels at 0..10 %, IUPAC symbols at 0..10 %, eight quality profiles over 0..93) x {exact, fast-relative, fast-absolute} x delta {0,1,2,5,10,20} x gap {0.5..4} x scale {0.5..2}, " +
 			"streams of 24 pairs through ONE arena and shift map of varying initial size; plus the exhaustive grid of read lengths 1..9 x 1..9 in both modes. The real PEAlign / PELeftAlign / PERightAlign / BuildQualityConsensus / AssemblePESequences run on every pair; " +
 			"the oracle is written from the documented end-gap-free scheme (harness/ref/c08_pe.go). " +
-			"Added later: concurrent sub-check (one arena per goroutine, 2-16 goroutines, results compared with those obtained alone). " +
+			"Added later: concurrent sub-check (one arena per goroutine, 2-16 goroutines, results compared with those obtained alone). min-identity thresholds placed on and a hair beside the identity of the overlap under test. " +
 			"distinct_nontrivial = distinct (sub-check, geometry, code branch exact|fast-identical|fast-dp x left|right, mode, length classes of both reads, errors present, IUPAC present, quality profile, sub-check specific class) among pairs whose reads both hold a 4-mer and whose path has at least one paired column",
 		Assume: []string{
 			"reads are non-empty, over the lower-case IUPAC nucleotide alphabet, with qualities 0..93; B is given in the orientation of A",
